@@ -133,6 +133,8 @@ type pgDecision struct {
 
 type stopSignal struct{}
 
+var errSkipRun = errors.New("skip run")
+
 var theWorld *World
 var hookOnce sync.Once
 
@@ -429,7 +431,16 @@ func (w *World) build() error {
 	if err != nil {
 		return err
 	}
+	for _, ddl := range p.PreDDL {
+		if _, err := sp.Exec(context.Background(), ddl); err != nil {
+			return fmt.Errorf("pre-ddl %q: %w", ddl, err)
+		}
+	}
 	if err := config.Migrate(context.Background(), sp, w.conf); err != nil {
+		if p.Checks["migrate_is_property"] {
+			w.violate("migration-failed", "migration of an accepted configuration failed: %v", err)
+			return errSkipRun
+		}
 		return fmt.Errorf("migrate: %w", err)
 	}
 	for i, d := range p.Decls {
@@ -637,7 +648,9 @@ func Run(t *testing.T, plan *Plan, st *core.Stream, extra Extra, keepLog bool) (
 			if err == nil {
 				err = w.startGeneration()
 			}
-			if err != nil {
+			if err == errSkipRun {
+				// a violation was recorded during setup; nothing to run
+			} else if err != nil {
 				w.harnessFail("setup: %v", err)
 			} else {
 				w.loop()
